@@ -144,6 +144,8 @@ fn net_line(r: &mut Rng) -> String {
         8 => format!("{}${}", r.pick(&["||t.example^", "/banner/", "|https://t.example/x|"]), r.pick(&["document", "document,script", "subdocument,script", "subdocument", "sub_frame,image,font", "object", "ping,other", "object,script", "websocket", "xhr", "font,media,stylesheet,image,script,xhr,subdocument", "~script", "~object", "~subdocument", "document,~script", "popup", "all", "inline-script", "1p,script", "3p,subdocument,script", "match-case", "important", "important,script"])),
         9 => format!("@@{}", gen::rule(r, &gen::RuleOpts { extra: false, full_regex: false })),
         10 => r.pick(&["||b\u{fc}cher.example^", "/\u{e9}/", "||x.com/\u{e9}$script", "||EXAMPLE.com^", "/ADS/$match-case", "/^ads[0-9]{2}/", "/ads/$match-case", "||a.com^$csp=x", "||a.com^$redirect=a.js", "||a.com^$removeparam=x", "@@||a.com^$generichide", "||a.com^$badfilter", "||a.com^$tag=x", "a.com", "127.0.0.1 a.com", "! c", "||a.com^|", "|a|", "||*", "||a*.com^", "*$image", "*$~image", "$script", "|$script"]).to_string(),
+        // an empty host text before a wildcard; literal `|` inside or at the end of a pattern
+        11 => r.pick(&["||*/ads/banner.js", "||*adframe", "||*^ads^", "||*.example.com/x", "||*/x$script", "||*ads/img|", "banner.gif||", "@@||ads.example.com/track?ids=1|2||$image", "/x|y|", "a|b", "|https://a.com/p|q|", "||a.com/p|q", "/ads||", "|||", "||a.com|b^"]).to_string(),
         _ => gen::rule(r, &gen::RuleOpts { extra: false, full_regex: false }),
     }
 }
@@ -210,6 +212,7 @@ pub fn run(seed: u64, n: usize, out: &mut Out) {
         // --- per-rule conversions
         let mut expect_used: Vec<String> = vec![];
         let mut items: Vec<String> = vec![];
+        crate::c11::emit_plines(out, &nets.iter().map(|(_, raw)| raw.clone()).collect::<Vec<_>>());
         for (f, raw) in &nets {
             let f2 = f.clone();
             let res = guarded(move || TryInto::<CbRuleEquivalent>::try_into(f2).map(|e| e.into_iter().collect::<Vec<CbRule>>()));
